@@ -283,9 +283,13 @@ def r20b(P, R):
             R.undecided("R20-b", "common-prefix", "prefix measured by %s" % after_zip, loc=loc)
             continue
         zipc = [c for c in chain if c["method"] == "zip"][0]
-        za = _recv_side(pv, zipc["recv"], p_from, p_to) | _recv_side(pv, zipc["args"][0], p_from, p_to)
-        R.check("R20-b", "common-prefix:both-sides", za == {"from", "to"}, "the prefix is measured between `from` and `to`",
-                "the zip that measures the common prefix pairs %s, not `from` with `to`" % sorted(za), loc=loc)
+        za1, za2 = _recv_side(pv, zipc["recv"], p_from, p_to), _recv_side(pv, zipc["args"][0], p_from, p_to)
+        za = za1 | za2
+        if not za1 or not za2:
+            R.undecided("R20-b", "common-prefix:both-sides", "an operand of the zip could not be traced to a parameter", loc=loc)
+        else:
+            R.check("R20-b", "common-prefix:both-sides", za == {"from", "to"}, "the prefix is measured between `from` and `to`",
+                    "the zip that measures the common prefix pairs %s, not `from` with `to`" % sorted(za), loc=loc)
         clo = tw[0]["args"][0] if tw[0]["args"] else None
         verdict = _pred_kind(clo)
         coarse = _coarse_equality(P, clo)
@@ -320,8 +324,11 @@ def r20b(P, R):
                         "the number of components skipped differs between `from` (%s) and `to` (%s)" % (_expr_sig(a0), _expr_sig(a1)), loc=loc)
             else:
                 R.undecided("R20-b", "same-count-both-sides", "skip arguments not recognised", loc=loc)
-        R.check("R20-b", "skip-sides", {frozenset(s0), frozenset(s1)} == {frozenset(["from"]), frozenset(["to"])},
-                "one remainder is taken from `from`, the other from `to`", "the two remainders are taken from %s and %s" % (sorted(s0), sorted(s1)), loc=loc)
+        if not s0 or not s1:
+            R.undecided("R20-b", "skip-sides", "a remainder could not be traced to a parameter", loc=loc)
+        else:
+            R.check("R20-b", "skip-sides", {frozenset(s0), frozenset(s1)} == {frozenset(["from"]), frozenset(["to"])},
+                    "one remainder is taken from `from`, the other from `to`", "the two remainders are taken from %s and %s" % (sorted(s0), sorted(s1)), loc=loc)
     elif not skips and not ranges:
         R.undecided("R20-b", "same-count-both-sides", "no skip(..)/slice on the component lists", loc=loc)
     else:
@@ -453,6 +460,8 @@ def _recv_side(pv, e, p_from, p_to, depth=0):
             e = e["e"]
         elif k == "Call" and e.get("args"):
             e = e["args"][0]
+        elif k == "BlockExpr" and "tail" in e.get("b", {}):
+            e = e["b"]["tail"]
         else:
             break
     if e.get("k") == "Path" and "local" in e:
